@@ -48,6 +48,9 @@ CHECKS["C08"] = dict(text="Token level through the real scan/expand pass loop, p
 CHECKS["C14"] = dict(text="Decided by sequential symbolic execution: (copy isolation) after AddWarrior, arbitrary changes to the caller's WarriorData (code, entry point, name) do not show in what SpawnWarrior loads and queues, and a cycle of the battle changes neither the caller's data nor the simulator's pristine copy; (repeatability) the C03 program family with a chain of two EQUs assembles to the by-construction meaning under 12 (thorough 48) different permutations applied at every map range statement; (footprint) a whole job - assemble a text, create a reporting simulator with a StateRecorder, add, spawn, run two cycles - performs no store to any package-level variable after initialisation and leaves the shared configuration and warrior data unchanged, which is the condition under which jobs sharing only configuration values and warrior data cannot conflict.",
              note="The schedule quantifier of the property (thread counts, interleavings under the race detector) is NOT explored: there is no interleaving model in this technique; the footprint obligation is a sufficient condition decided path by path within the bounds. Trusted: translator, z3, thread-safety of fmt and go/types internals.",
              ref="5/C14")
+CHECKS["C16"] = dict(text="The real LoadCode / addressSigned / String methods with fmt.Sprintf modelled as a rope builder: for every opcode x modifier x mode pair of the dialect (ICWS'94: all 17x7x8x8 forms; ICWS'88: every legal '88 instruction with the implied modifier) with fields on both sides of the sign boundary, and for symbolic field values over the whole range [0,M) with entry point anywhere in a 1..2 line warrior, the listing read back by a harness-side reader written from the pMARS conventions (ORG START first / END START last and no modifiers in '88, START label, signed fields, comma) denotes the same instructions (fields modulo M) and entry point, with exactly one START line; String() followed by the real name decoders is the identity on the whole data model.",
+             note="Trusted: translator (witness replay), z3, the model of fmt.Sprintf (%s %d with widths and left alignment; the padding produced by widths is modelled exactly by case split on the rendered length). Core sizes 3, 8, 8000, 8001 (thorough + 8192, 55440). Warriors longer than 2 (thorough 3) lines are outside.",
+             ref="5/C16")
 CHECKS = dict(sorted(CHECKS.items()))
 
 NOT_YET = {
